@@ -60,6 +60,11 @@ def evaluate(world, run):
         # the step is set up so that the PERSIST phase fails (e.g. an unparsable SDK manifest on disk):
         # termination, clean exit and failure atomicity of the SDK apply; no reference verdict/bytes do
         expect_fail = step.get("expect_fail")
+        if step.get("bp_locs"):
+            # another serialisation of the blueprint (unreadable source locations): whether a diagnostic
+            # needs a snippet decides the verdict, so there is no reference verdict and no golden bytes
+            expect_fail = expect_fail or "moved-blueprint"
+            probe("moved_blueprint_exit_%s" % ex["exit"])
         before, after = ex["before"], ex["after"]
         code, sig = ex["exit"], ex["signal"]
 
@@ -106,7 +111,8 @@ def evaluate(world, run):
                 viol("C09", "clean-exit", "panic-on-stderr", ex,
                      "stderr contains a panic report: " + _first_line_with(ex["stderr"], "panicked"))
             # 3. failure atomicity
-            persist_failed = "Failed to persist the generated code to disk" in ex["stderr"]
+            persist_failed = ("Failed to persist the generated code to disk" in ex["stderr"]
+                              or "Failed to persist diagnostic information to disk" in ex["stderr"])
             if expect_fail:
                 probe("persist_phase_failure" if (code == 1 and persist_failed) else f"expect_fail_exit_{code}")
             if code != 0 or sig is not None:
